@@ -13,7 +13,7 @@ META = {
               "and prior output buffer contents symbolic. quick: AD x PT on the row/column through (r+1, r+1) of L(r)={0,1,r-1,r,r+1,2r,2r+1}; "
               "thorough: Cartesian grid 0..2r+1 plus 3r, 4r+1, plus (64,100), (100,257), (5,1000). Transcript form (permutation = free function) "
               "on the whole grid, integrated form (real permutation inside) on 3 shapes per algorithm and back end.",
-    "outside": "lengths not in the grid as a direct claim (largest encoded message 1000 bytes); C++ byte_array overloads (C17)",
+    "outside": "lengths not in the grid as a direct claim (largest encoded message 1000 bytes), in particular messages of 2^32 bytes and more (a length narrowed to 32 bits in a helper would go unnoticed: seed C06-2); C++ byte_array overloads (C17)",
     "assumptions": ["transcript form: equality holds for every permutation function; combined with C08 (back end == specification) by congruence",
                     "explicit_bzero modelled as memset"],
     "explanation": "lock-step transcript equivalence + integrated equivalence against spec_aead_encrypt",
